@@ -181,18 +181,70 @@ func init() {
 	harnessAPI["symxRecord"] = func(fr *frame, args []value) value {
 		p := fr.i.path
 		label := argString(fr, args[0])
-		f := &fmtState{i: fr.i, fr: fr}
-		f.ws("rec:" + label + "=")
+		var pieces []value
+		lit := func(s string) {
+			for k := 0; k < len(s); k++ {
+				pieces = append(pieces, s[k])
+			}
+		}
+		lit("rec:" + label + "=")
+		var render func(t types.Type, v value)
+		render = func(t types.Type, v value) {
+			switch x := v.(type) {
+			case symInt, symBool:
+				pieces = append(pieces, x) // formatted under the final model
+				return
+			case symStr:
+				for _, b := range x.b {
+					if sb, ok := b.(symInt); ok {
+						pieces = append(pieces, recByte{sb.t})
+					} else {
+						pieces = append(pieces, b)
+					}
+				}
+				return
+			case iface:
+				if x.t == nil {
+					lit("<nil>")
+					return
+				}
+				render(x.t, x.v)
+				return
+			case []value:
+				if t != nil {
+					if sl, ok := t.Underlying().(*types.Slice); ok {
+						lit("[")
+						for k, e := range x {
+							if k > 0 {
+								lit(" ")
+							}
+							render(sl.Elem(), e)
+						}
+						lit("]")
+						return
+					}
+				}
+			}
+			f := &fmtState{i: fr.i, fr: fr}
+			f.formatValue(t, v, 'v', false, false, 0)
+			for _, b := range f.out {
+				if sb, ok := b.(symInt); ok {
+					pieces = append(pieces, recByte{sb.t})
+				} else {
+					pieces = append(pieces, b)
+				}
+			}
+		}
 		for k, a := range args[1].([]value) {
 			if k > 0 {
-				f.ws("|")
+				lit("|")
 			}
 			it := a.(iface)
-			f.formatValue(it.t, it.v, 'v', false, false, 0)
+			render(it.t, it.v)
 		}
 		p.res.Events = append(p.res.Events, "")
 		idx := len(p.res.Events) - 1
-		p.pendingRecs = append(p.pendingRecs, pendingRec{idx, append([]value(nil), f.out...)})
+		p.pendingRecs = append(p.pendingRecs, pendingRec{idx, pieces})
 		return nil
 	}
 	// symxIsSymbolic(): true under the engine, false natively
@@ -200,6 +252,8 @@ func init() {
 	// symxStub(name string, n int) int: a nondeterministic environment answer in [0,n)
 	harnessAPI["symxStub"] = harnessAPI["symxChoice"]
 }
+
+type recByte struct{ t *sym.Term }
 
 type pendingRec struct {
 	idx   int
@@ -241,13 +295,22 @@ func (p *pathCtx) constrainAlphabet(v *sym.Term, alpha string) {
 // resolveRecords evaluates pending record texts under model m.
 func (p *pathCtx) resolveRecords(m map[string]uint64) {
 	for _, r := range p.pendingRecs {
-		bs := make([]byte, len(r.bytes))
-		for k, b := range r.bytes {
+		var bs []byte
+		for _, b := range r.bytes {
 			switch b := b.(type) {
 			case uint8:
-				bs[k] = b
+				bs = append(bs, b)
+			case recByte:
+				bs = append(bs, byte(sym.Eval(b.t, m)))
+			case symBool:
+				bs = append(bs, fmt.Sprint(sym.Eval(b.t, m) == 1)...)
 			case symInt:
-				bs[k] = byte(sym.Eval(b.t, m))
+				v := sym.Eval(b.t, m)
+				if b.k == types.Uint8 && b.t.W == 8 && false {
+					bs = append(bs, byte(v))
+				} else {
+					bs = append(bs, fmt.Sprint(concInt(b.k, v))...)
+				}
 			}
 		}
 		p.res.Events[r.idx] = string(bs)
